@@ -208,11 +208,13 @@ def scen_ping(rng, tier):
                                         else:
                                             # no ping timeout configured and this ping stays unanswered: the property says pings
                                             # keep being sent at the interval for as long as the connection is open
-                                            unanswered_no_timeout = True
-                                            for j in (1, 2, 3):
+                                            unanswered_no_timeout = len(exp_pings)   # pings up to and including the unanswered one
+                                            last_answer = t + 3 * I + SEC
+                                            j = 1
+                                            while t + j * I < last_answer + 8:   # the peer goes away at last_answer + 8
                                                 exp_pings.append(t + j * I)
                                                 ev += probes(t + j * I)
-                                            last_answer = t + 3 * I + SEC
+                                                j += 1
                                         break
                                     ta = t + rtt
                                     if T and ta >= floor_s(t + T):
@@ -322,7 +324,7 @@ def judge_timers(sc, times, exp, line):
                             pr_frames.append(times[k])
         if pr_frames != exp["pings"]:
             key = "auto-pings-not-at-interval"
-            if exp.get("unanswered_no_timeout") and pr_frames == exp["pings"][:len(pr_frames)] and len(pr_frames) == len(exp["pings"]) - 3:
+            if exp.get("unanswered_no_timeout") and pr_frames == exp["pings"][:exp["unanswered_no_timeout"]]:
                 key = "auto-ping-stops-after-unanswered-ping:timeout-disabled"
             bad.append((key, f"pings at {[round(t / SEC, 3) for t in pr_frames]} expected {[round(t / SEC, 3) for t in exp['pings']]} (I={exp['I'] / SEC}, T={exp['T'] / SEC})"))
         if exp["responsive"] and k_drop is not None:
